@@ -268,6 +268,23 @@ fn reject_cases(rt: &tokio::runtime::Runtime, r: &mut Report, op: &str, seed: u6
                         expect_rejected(rt, r, op, name, mi.rust, &m);
                     }
                 }
+                // blanks that are not XML white space at the edges of the document (form feed, vertical tab, NBSP): the
+                // body is then not a well-formed document
+                if !req.body.is_empty() {
+                    for (name, pre, post) in [
+                        ("payload-form-feed-before-root", &b"\x0c"[..], &b""[..]), ("payload-form-feed-after-root", &b""[..], &b"\x0c"[..]), ("payload-form-feed-after-root", &b""[..], &b"\n\x0c\n"[..]),
+                        ("payload-vertical-tab-after-root", &b""[..], &b"\x0b"[..]), ("payload-nbsp-after-root", &b""[..], &b"\xc2\xa0"[..]), ("payload-nbsp-before-root", &b"\xc2\xa0"[..], &b""[..]),
+                    ] {
+                        let mut m = req.clone();
+                        let mut b = pre.to_vec();
+                        b.extend_from_slice(&req.body);
+                        b.extend_from_slice(post);
+                        m.body = b;
+                        m.set_header("content-length", &m.body.len().to_string());
+                        m.headers.retain(|(k, _)| !k.eq_ignore_ascii_case("content-md5") && !k.to_ascii_lowercase().starts_with("x-amz-checksum") && !k.eq_ignore_ascii_case("x-amz-sdk-checksum-algorithm"));
+                        expect_rejected(rt, r, op, name, mi.rust, &m);
+                    }
+                }
                 // buffered body whose length differs from the declared Content-Length
                 if !req.body.is_empty() {
                     for (name, delta) in [("declared-length-too-large", 3i64), ("declared-length-too-small", -3)] {
